@@ -1,7 +1,7 @@
 #!/bin/bash
 # tools/seed_sweep.sh [tier] [names...]: runs seeded changes against their property's check; one line each.
 tier="${1:-quick}"; shift
-names=("$@"); if [ ${#names[@]} -eq 0 ]; then names=($(ls /verif/seeded)); fi
+names=("$@"); if [ ${#names[@]} -eq 0 ]; then names=($(cd /verif/seeded && ls -d C*-m*)); fi
 for n in "${names[@]}"; do
   with=$(python3 -c "import json;print(json.load(open('/verif/seeded/$n/meta.json')).get('check_with',''))" 2>/dev/null)
   out=$(/verif/tools/seed_run_iso.sh $n $tier $with 2>&1)
